@@ -110,3 +110,28 @@ package sliceio
 //@   loop 1 invariant old(d.err) == nil && d.err == nil && d.crc.hside == 1 && d.crc != nil && d.dec != nil && d.dec.Decoder != nil && wf(f) && distinctCols(f) && colClock >= old(colClock) && scratchOK(d, f)
 //@   loop 1 invariant first-or-buffered: (rclock == old(rclock) && d.buf == old(d.buf) && ColMem == old(ColMem)) || (rclock > old(rclock) && old(d.buf.len) == 0 && d.buf.len == intOfTok(d.crc.hstart + 1) && d.buf.len > f.len && u32OfTok(rclock) == crcOfRange(1, d.crc.hstart, rclock - 1) && wf(d.buf) && d.scratch.data != nil && d.buf.data == d.scratch.data)
 //@   loop 1 invariant forall(c, 0, len(f.data), forall(k, implies(k < f.off || k >= f.off + f.len, ColMem[f.data[c].ptr][k] == old(ColMem[f.data[c].ptr][k]))))
+
+// ---- C17: Scanner hands out every row its reader supplies, one per Scan, and stops only when drained ----
+
+//@ spec func scanBuffered(s *Scanner) bool = 0 <= s.beg && s.beg <= s.end
+
+//@ func sliceio.(*Scanner).Scan (ctx, out) (ok)
+//@   requires s != nil && s.reader != nil && s.typ != nil && scanBuffered(s) && defaultChunksize >= 1
+//@   may_panic
+//@   flag abstract_calls frame.Make, frame.Frame.Index
+//@   ensures  sticky: implies(old(s.err) != nil, !ok && s.err == old(s.err) && s.reader.nreads == old(s.reader.nreads))
+//@   ensures  false-means-error: ok == (s.err == nil)
+//@   ensures  one-row-per-scan: implies(ok, s.beg <= s.end && implies(s.reader.nreads == old(s.reader.nreads), s.beg == old(s.beg) + 1 && s.end == old(s.end)))
+//@   ensures  end-only-when-drained: implies(!ok && s.err == EOF && old(s.err) == nil, s.beg == s.end && s.atEOF)
+//@   ensures  buffered-rows-first: implies(old(s.err) == nil && old(s.started) && old(s.beg) < old(s.end) && len(out) == tyNumOut(s.typ) && ok, s.reader.nreads == old(s.reader.nreads))
+//@   ensures  read-errors-reported: implies(s.reader.nreads > old(s.reader.nreads) && s.reader.lastErr != nil && s.reader.lastErr != EOF, !ok && s.err == s.reader.lastErr)
+//@   ensures  still-buffered: scanBuffered(s)
+//@   modifies s.err, s.started, s.in, s.beg, s.end, s.atEOF, ColMem, colClock, SReader.nreads, SReader.lastN, SReader.lastErr, rowsSupplied, sawRowsWithEOF
+//@   loop 2 invariant s.err == nil && old(s.err) == nil && s.started && scanBuffered(s) && s.reader == old(s.reader) && s.reader.nreads >= old(s.reader.nreads) && implies(s.reader.nreads > old(s.reader.nreads), s.reader.lastErr == nil || s.reader.lastErr == EOF)
+//@   loop 2 invariant implies(s.reader.nreads == old(s.reader.nreads), s.beg == ite(old(s.started), old(s.beg), 0) && s.end == ite(old(s.started), old(s.end), 0))
+//@   loop 2 invariant implies(old(s.started) && old(s.beg) < old(s.end), s.reader.nreads == old(s.reader.nreads))
+
+//@ func sliceio.(*Scanner).Err
+//@   requires s != nil
+//@   ensures  end-of-stream-is-not-an-error: result == ite(s.err == EOF, nil, s.err)
+//@   modifies nothing
